@@ -21,6 +21,75 @@ theorem sciChars_length' (d : Nat) (s : Sci) (he : s.e10.natAbs < 1000) :
       List.length_drop, fixedDigits_length, expDigits_length _ he]
     cases s.neg <;> simp <;> omega
 
+/-- `float()` of a `'%.0E'` field (one digit, no point) between blanks: exactly the printed decimal -/
+theorem pyFloat_sciChars0 (s : Sci) (a b : Str) (hm : s.mant < 10)
+    (he : s.e10.natAbs < 1000) (ha : ∀ x ∈ a, isWs x = true) (hb : ∀ x ∈ b, isWs x = true) :
+    pyFloat? (a ++ sciChars 0 s ++ b) = some (sciDec 0 s) := by
+  obtain ⟨c0, hds⟩ : ∃ c0, fixedDigits (0 + 1) s.mant = [c0] := by
+    have hl := fixedDigits_length (0 + 1) s.mant
+    cases hfd : fixedDigits (0 + 1) s.mant with
+    | nil => rw [hfd] at hl; simp at hl
+    | cons c0 rest =>
+      rw [hfd] at hl
+      cases rest with
+      | nil => exact ⟨c0, rfl⟩
+      | cons _ _ => simp at hl
+  have hdig : ∀ c ∈ [c0], c.isDigit = true := by
+    rw [← hds]; exact fixedDigits_isDigit _ _
+  have hc0 : c0.isDigit = true := hdig c0 List.mem_cons_self
+  have hval : digitsVal [c0] = s.mant := by
+    rw [← hds, digitsVal_fixedDigits, Nat.mod_eq_of_lt (by simpa using hm)]
+  have hexp := expDigits_isDigit _ he
+  have hexpv := digitsVal_expDigits _ he
+  have hexpa := allDigits_of _ (expDigits_ne_nil _ he) hexp
+  have hbody : ∀ x ∈ sciChars 0 s, isWs x = false := by
+    intro x hx
+    unfold sciChars at hx
+    simp only [if_true, hds, List.take_succ_cons, List.take_zero, List.append_nil,
+      List.mem_append, List.mem_cons, List.not_mem_nil, or_false] at hx
+    rcases hx with (((h | h) | h) | h)
+    · split at h
+      · simp only [List.mem_cons, List.not_mem_nil, or_false] at h; rw [h]; decide
+      · simp at h
+    · rw [h]; exact isDigit_not_ws _ hc0
+    · rcases h with h | h
+      · rw [h]; decide
+      · rw [h]; split <;> decide
+    · exact isDigit_not_ws _ (hexp x h)
+  unfold pyFloat?
+  rw [strip_body a _ b ha hb hbody]
+  have hsplit : splitSign (sciChars 0 s) =
+      (s.neg, c0 :: 'E' :: (if s.e10 < 0 then '-' else '+') :: expDigits s.e10.natAbs) := by
+    unfold sciChars
+    simp only [if_true, hds, List.take_succ_cons, List.take_zero, List.append_nil]
+    cases s.neg
+    · simp only [Bool.false_eq_true, if_false, List.nil_append, List.cons_append, List.append_assoc]
+      exact splitSign_digit _ _ hc0
+    · simp only [if_true, List.cons_append, List.nil_append, List.append_assoc]
+      rfl
+  rw [hsplit]
+  have h1 : (c0 :: 'E' :: (if s.e10 < 0 then '-' else '+') :: expDigits s.e10.natAbs).takeWhile Char.isDigit = [c0] := by
+    simp [List.takeWhile_cons, hc0, not_digit_E]
+  have h2 : (c0 :: 'E' :: (if s.e10 < 0 then '-' else '+') :: expDigits s.e10.natAbs).dropWhile Char.isDigit
+      = 'E' :: (if s.e10 < 0 then '-' else '+') :: expDigits s.e10.natAbs := by
+    simp [List.dropWhile_cons, hc0, not_digit_E]
+  simp only [h1, h2]
+  have h5 : splitSign ((if s.e10 < 0 then '-' else '+') :: expDigits s.e10.natAbs)
+      = (decide (s.e10 < 0), expDigits s.e10.natAbs) := by
+    by_cases hneg : s.e10 < 0 <;> simp [hneg, splitSign]
+  have hman : digitsVal ([c0] ++ []) = s.mant := by simpa using hval
+  split
+  · next t heq =>
+    exfalso
+    have := (List.cons.inj heq).1
+    exact absurd this (by decide)
+  · simp only [List.isEmpty_cons, Bool.false_and, Bool.false_eq_true, if_false, beq_self_eq_true, Bool.or_true, if_true,
+      h5, hexpa, hexpv, hman, List.length_nil]
+    unfold sciDec
+    by_cases hneg : s.e10 < 0
+    · simp [hneg, abs_of_neg hneg]
+    · simp [hneg]; omega
+
 /-- the value does not fit its field: negative with a three-digit exponent (`¬ Fits d b`, decidable form) -/
 def Wide (d b : Nat) : Bool := (sci d b).neg && decide (100 ≤ (sci d b).e10.natAbs)
 
@@ -71,17 +140,25 @@ theorem fmtEFx_of_fits (d b : Nat) (hd : 1 ≤ d) (h : Fits d b) : fmtEFx d b = 
 /-- the exact decimal the patched writer prints: `d` digits after the point, `d - 1` for a value that does not fit -/
 def decOfFx (d b : Nat) : Dec10 := if Wide d b then decOf (d - 1) b else decOf d b
 
-/-- **F3 repaired (value).**  `float(numform(x))` is the printed decimal, for every double -/
-theorem pyFloat_fmtEFx (d b : Nat) (hd : 2 ≤ d) : pyFloat? (fmtEFx d b) = some (decOfFx d b) := by
-  rw [fmtEFx_eq d b (by omega)]
+/-- **F3 repaired (value).**  `float(numform(x))` is the printed decimal, for every double and every `digits ≥ 1`
+(with `digits = 1` the fallback prints one digit and no point: `pyFloat_sciChars0`) -/
+theorem pyFloat_fmtEFx (d b : Nat) (hd : 1 ≤ d) : pyFloat? (fmtEFx d b) = some (decOfFx d b) := by
+  rw [fmtEFx_eq d b hd]
   unfold decOfFx
   split
   · unfold padLeft decOf
-    have := pyFloat_sciChars (d - 1) (sci (d - 1) b)
-      (List.replicate (numlen d - (sciChars (d - 1) (sci (d - 1) b)).length) ' ') [] (by omega)
-      (sci_mant (d - 1) b).1 (sci_e10_bound (d - 1) b) (replicate_ws _) (by simp)
-    simpa using this
-  · exact pyFloat_fmtE d b (by omega)
+    obtain ⟨k, rfl⟩ : ∃ k, d = k + 1 := ⟨d - 1, by omega⟩
+    simp only [Nat.add_sub_cancel]
+    rcases Nat.eq_zero_or_pos k with rfl | hk
+    · have := pyFloat_sciChars0 (sci 0 b)
+        (List.replicate (numlen (0 + 1) - (sciChars 0 (sci 0 b)).length) ' ') []
+        (by have := (sci_mant 0 b).1; simpa using this) (sci_e10_bound 0 b) (replicate_ws _) (by simp)
+      simpa using this
+    · have := pyFloat_sciChars k (sci k b)
+        (List.replicate (numlen (k + 1) - (sciChars k (sci k b)).length) ' ') [] hk
+        (sci_mant k b).1 (sci_e10_bound k b) (replicate_ws _) (by simp)
+      simpa using this
+  · exact pyFloat_fmtE d b hd
 
 theorem fmtEFx_fieldChar (d b : Nat) : ∀ c ∈ fmtEFx d b, FieldChar c := by
   intro c hc
@@ -109,7 +186,7 @@ theorem decOfFx_err (d b : Nat) :
 def aEntryFx (d : Nat) (cplx : Bool) (x : Entry) : AEntry :=
   (decOfFx d x.1, if cplx then decOfFx d x.2 else Dec10.zero)
 
-theorem mapM_pyFloatFx (d : Nat) (hd : 2 ≤ d) (ds : List Nat) :
+theorem mapM_pyFloatFx (d : Nat) (hd : 1 ≤ d) (ds : List Nat) :
     (ds.map (fmtEFx d)).mapM pyFloat? = some (ds.map (decOfFx d)) := by
   induction ds with
   | nil => rfl
@@ -138,7 +215,7 @@ theorem real_segDsFx (d : Nat) (seg : List Entry) :
 def valLinesFx (d : Nat) (ds : List Nat) : List Str := chunkLines (perline d) ds.length (ds.map (fmtEFx d))
 
 /-- `readVals_valLines` for the patched writer: no `Fits` hypothesis -/
-theorem readVals_valLinesFx (g : Cfg) (d : Nat) (cplx : Bool) (hg : GoodCfg g d cplx) (hd : 2 ≤ d)
+theorem readVals_valLinesFx (g : Cfg) (d : Nat) (cplx : Bool) (hg : GoodCfg g d cplx) (hd : 1 ≤ d)
     (hp : 1 ≤ perline d) (seg : List Entry) (rest : List Str) :
     ∃ blk, getBlock g (segDs cplx seg).length (valLinesFx d (segDs cplx seg) ++ rest) = (blk, rest) ∧
       readVals g blk (segDs cplx seg).length = some (seg.map (aEntryFx d cplx)) := by
@@ -147,7 +224,7 @@ theorem readVals_valLinesFx (g : Cfg) (d : Nat) (cplx : Bool) (hg : GoodCfg g d 
   have hwidth : ∀ f ∈ (segDs cplx seg).map (fmtEFx d), f.length = g.numlen := by
     intro f hf
     obtain ⟨b, hb, rfl⟩ := List.mem_map.1 hf
-    rw [hnl]; exact fmtEFx_length d b (by omega)
+    rw [hnl]; exact fmtEFx_length d b hd
   have hD : ∀ f ∈ (segDs cplx seg).map (fmtEFx d), ∀ c ∈ f, c ≠ 'D' := by
     intro f hf c hcf
     obtain ⟨b, _, rfl⟩ := List.mem_map.1 hf
